@@ -87,7 +87,7 @@ Result execute(const Plan &p) {
     auto sig = [&](const char *oracle, const char *clause, const std::string &detail) { Violation v; v.oracle = oracle; v.add("component", "distributed_matrix"); v.add("clause", clause); v.add("ranks", R); v.detail = detail; return v; };
 
     // harness-side result stores (all ranks share the process)
-    Entries gotA, gotT, gotC, gotS, gotF, gotK, gotKT, gotKC, gotKF;
+    Entries gotA, gotT, gotC, gotS, gotF, gotFC, gotK, gotKT, gotKC, gotKF;
     std::vector<double> yk(n, 0.0), gshs(R, 0.0), pows(R, 0.0);
     // a copy of A with a guaranteed non-zero diagonal (scaled spectral radius estimates)
     gen::Csr Adg; if (square) { gen::Builder bd(n, n); for (long i = 0; i < n; ++i) { double s = 0; for (ptrdiff_t j = A.ptr[i]; j < A.ptr[i+1]; ++j) { s += std::fabs(A.val[j]); if (A.col[j] != i) bd.set(i, A.col[j], A.val[j]); } bd.set(i, i, (double)(1 + ((long)s) % 7) * ((i % 3) ? 1.0 : -2.0)); } Adg = bd.finish(); }
@@ -120,7 +120,12 @@ Result execute(const Plan &p) {
           for (size_t i = 0; i < dS.local()->nrows; ++i) for (ptrdiff_t j = dS.local()->ptr[i] + 1; j < dS.local()->ptr[i+1]; ++j) if (dS.local()->col[j] <= dS.local()->col[j-1]) { fails[rank] += "sort_rows left an unsorted local row; "; break; }
           add_strip(gotS, *dS.local(), *dS.remote(), r0, c0); }
         // copy into another backend (float values)
-        { amgcl::mpi::distributed_matrix<amgcl::backend::builtin<float> > dF(dA); add_strip(gotF, *dF.local(), *dF.remote(), r0, c0); }
+        { typedef amgcl::mpi::distributed_matrix<amgcl::backend::builtin<float> > DMF;
+          DMF dF(dA); add_strip(gotF, *dF.local(), *dF.remote(), r0, c0);
+          // the copy is a full distributed matrix: same offsets and sizes, and usable as an operand (small integers: exact in float)
+          if (dF.loc_col_shift() != dA.loc_col_shift() || dF.loc_rows() != dA.loc_rows() || dF.loc_cols() != dA.loc_cols() || dF.glob_rows() != dA.glob_rows() || dF.glob_cols() != dA.glob_cols() || dF.glob_nonzeros() != dA.glob_nonzeros())
+              fails[rank] += fmt("copy to another backend: column offset %ld (source %ld), local %ldx%ld (source %ldx%ld); ", (long)dF.loc_col_shift(), (long)dA.loc_col_shift(), (long)dF.loc_rows(), (long)dF.loc_cols(), (long)dA.loc_rows(), (long)dA.loc_cols());
+          DMF dFB(dB); auto dFC = amgcl::mpi::product(dF, dFB); add_strip(gotFC, *dFC->local(), *dFC->remote(), r0, kp[rank]); }
         // spectral radius (square matrices distributed conformally)
         if (conformal && n > 0) {
             gen::Csr Ad = strip(A, r0, r1);
@@ -193,6 +198,7 @@ Result execute(const Plan &p) {
         Entries wantS = wantA; for (Entries::iterator it = wantS.begin(); it != wantS.end(); ++it) it->second *= 0.5;
         if (!(e = same(gotS, wantS)).empty()) res.fail(sig("serial-equivalence", "scale-sort_rows", e));
         if (!(e = same(gotF, wantA)).empty()) res.fail(sig("serial-equivalence", "copy-between-backends", e));
+        if (!(e = same(gotFC, wantC)).empty()) res.fail(sig("serial-equivalence", "product-of-copies-in-another-backend", e));
         if (!(e = same(gotK, wantA)).empty()) res.fail(sig("serial-equivalence", "kept-source-after-move_to_backend", e));
         if (!(e = same(gotKT, wantT)).empty()) res.fail(sig("serial-equivalence", "transpose-after-move_to_backend(keep_src)", e));
         if (!(e = same(gotKC, wantC)).empty()) res.fail(sig("serial-equivalence", "product-after-move_to_backend(keep_src)", e));
